@@ -63,11 +63,70 @@ fn first_diff(a: &str, b: &str) -> String {
     format!("{} vs {} lines", a.lines().count(), b.lines().count())
 }
 
+/// the block references of the library form a cycle (feature of finding D40)
+pub fn has_block_reference_cycle(lib: &[(String, String)]) -> bool {
+    use crate::oracle::md;
+    let mut refs: HashMap<String, Vec<String>> = HashMap::new();
+    for (k, t) in lib {
+        let key = Key::from_file_name(k).to_string();
+        let dir = Key::from_file_name(k).parent();
+        for l in md::read(t, &dir).links {
+            if l.block_level {
+                refs.entry(key.clone()).or_default().push(md::resolve(&l.dest, &dir));
+            }
+        }
+    }
+    // colour DFS
+    fn visit(k: &str, refs: &HashMap<String, Vec<String>>, state: &mut HashMap<String, u8>) -> bool {
+        match state.get(k) {
+            Some(1) => return true,
+            Some(2) => return false,
+            _ => {}
+        }
+        state.insert(k.to_string(), 1);
+        for t in refs.get(k).cloned().unwrap_or_default() {
+            if visit(&t, refs, state) {
+                return true;
+            }
+        }
+        state.insert(k.to_string(), 2);
+        false
+    }
+    let mut state = HashMap::new();
+    let keys: Vec<String> = refs.keys().cloned().collect();
+    keys.iter().any(|k| visit(k, &refs, &mut state))
+}
+
+/// finding D40: with a reference cycle the set of outline paths depends on the order in which the notes entered the
+/// graph (the node ids decide where the walk cuts the cycle).  For such a library only what D40 does not explain is
+/// compared: the same load order and mode under different pool sizes and in different processes must agree.
+fn check_cyclic_library(file: &str) -> (Option<String>, u64) {
+    let mut runs = 0u64;
+    for (order, mode) in [(3u64, "import"), (3, "insert"), (10, "insert")] {
+        let Some(base) = run_child(file, 1, order, mode) else { continue };
+        runs += 1;
+        for t in [1usize, 2, 4, 16] {
+            let Some(got) = run_child(file, t, order, mode) else { continue };
+            runs += 1;
+            if got != base {
+                let d = if got.0 != base.0 { first_diff(&base.0, &got.0) } else { first_diff(&base.1, &got.1) };
+                return (Some(format!("{} threads, order seed {}, {}: answers differ from the 1-thread run with the same load order: {}", t, order, mode, d)), runs);
+            }
+        }
+    }
+    (None, runs)
+}
+
 pub fn check_library(lib: &[(String, String)], tag: &str, many: bool, d19_open: bool) -> (Option<String>, u64, bool) {
     let dir = format!("/verif/harness/tmp/c16-{}", std::process::id());
     let _ = std::fs::create_dir_all(&dir);
     let file = format!("{}/{}.json", dir, tag);
     std::fs::write(&file, serde_json::to_string(&lib).unwrap()).unwrap();
+    if D40_OPEN.load(std::sync::atomic::Ordering::Relaxed) && has_block_reference_cycle(lib) {
+        let (what, runs) = check_cyclic_library(&file);
+        let _ = std::fs::remove_file(&file);
+        return (what, runs, false);
+    }
     let threads: Vec<usize> = if many { vec![1, 2, 3, 4, 8, 16] } else { vec![1, 4, 16] };
     let mut runs = 0u64;
     let mut attributed = false;
@@ -126,8 +185,14 @@ fn diamond_library(r: &mut Rng) -> Vec<(String, String)> {
         }
         lib.push((format!("r{}", k), t));
     }
+    // every other library: a reference cycle below the roots (the first leaf includes the first middle note back)
+    if r.chance(1, 2) {
+        lib[0].1.push_str("\n## back\n\n[cycle](m0)\n");
+    }
     lib
 }
+
+static D40_OPEN: std::sync::atomic::AtomicBool = std::sync::atomic::AtomicBool::new(false);
 
 pub fn run(ctx: &Ctx, model: &mut Model, rep: &mut Report) {
     rep.rule = "libraries (heading trees with block references, duplicate titles, inline links; and general documents) dumped by separate processes (fresh hash seeds) with RAYON_NUM_THREADS ∈ {1,…,16}, shuffled HashMap build order (import) and shuffled insertion order (insert_document); compared: formatted text and export of every note, titles, backlink sets with places, block at every line, outline paths, search result sets and ordered search results for 4 queries; correspondence: the model's import of the permuted library vs the real graph (arena, keys, paths); non-trivial = ≥2 notes; distinct by library".to_string();
@@ -141,6 +206,7 @@ pub fn run(ctx: &Ctx, model: &mut Model, rep: &mut Report) {
         }
         return;
     }
+    // witnesses are checked with the attribution off
     for f in known::open(ctx, "C16") {
         rep.evaluations += 1;
         match check_library(&parse_lib(&f.witness["library"]), "known", false, false) {
@@ -148,6 +214,7 @@ pub fn run(ctx: &Ctx, model: &mut Model, rep: &mut Report) {
             _ => rep.resolved_findings.push(json!({"id": f.id, "what": f.what})),
         }
     }
+    D40_OPEN.store(known::is_open(ctx, "C16", "D40"), std::sync::atomic::Ordering::Relaxed);
     let n = if ctx.thorough { 150 } else { 12 };
     for i in 0..n {
         let mut r = Rng::for_case(ctx.seed ^ 0xC16, i as u64);
